@@ -46,6 +46,8 @@ def run(ck):
     ck.rule("R6", "the value is stored under the key on every path of __setitem__, after any eviction", floor=1)
     ck.rule("R7", "eviction only for a new key and only when size reaches the bound", floor=2)
     ck.rule("R8", "__getitem__ returns the stored value of the key", floor=1)
+    ck.rule("R9", "every method that changes the key set of the store also resynchronises the size and the use counters, and reports dropped keys", floor=3)
+    _sync_rules(ck, m, meths)
 
     # ------------------------------------------------------------------ __setitem__
     fn = meths["__setitem__"]
@@ -292,6 +294,49 @@ def run(ck):
     rets = [n for n in walk_body(fn) if isinstance(n, ast.Return)]
     ok = bool(rets) and all(r.value is not None and res.expand(r.value) == "%s[%s]" % (D, kp) for r in rets)
     ck.ob("R8", "BoundedDict.__getitem__", ok, m.where(fn), "lookup does not return %s[%s]" % (D, kp))
+
+
+def _sync_rules(ck, m, meths):
+    """R9: the three synchronized structures (_data, _size, _counter) change together in EVERY method of the class - also in
+    ones added later (a bulk clear(), pop() ...): a method that removes keys from / rebinds the store writes the size and the counters
+    too and calls the deletion callback; who-writes: nothing outside the class touches the three fields."""
+    KEYSET_MUT = ("pop", "clear", "popitem", "update", "setdefault")
+
+    def touches(fn, field, kinds):
+        out = []
+        for n in walk_body(fn):
+            if "assign" in kinds and isinstance(n, (ast.Assign, ast.AugAssign)):
+                tgs = n.targets if isinstance(n, ast.Assign) else [n.target]
+                for t in tgs:
+                    b = t
+                    while isinstance(b, ast.Subscript):
+                        b = b.value
+                    if dotted(b) == "self." + field and (t is b or "item" in kinds):
+                        out.append(n)
+            if "del" in kinds and isinstance(n, ast.Delete):
+                for t in n.targets:
+                    if isinstance(t, ast.Subscript) and dotted(t.value) == "self." + field:
+                        out.append(n)
+            if "call" in kinds and isinstance(n, ast.Call) and isinstance(n.func, ast.Attribute) and n.func.attr in KEYSET_MUT \
+                    and dotted(n.func.value) == "self." + field:
+                out.append(n)
+        return out
+    for name, fn in sorted(meths.items()):
+        shrink = touches(fn, "_data", ("assign", "del", "call"))
+        if not shrink:
+            continue
+        if name == "__init__":
+            continue
+        size_w = touches(fn, "_size", ("assign",))
+        cnt_w = touches(fn, "_counter", ("assign", "item", "del", "call"))
+        ck.ob("R9", "BoundedDict.%s:size-follows-store" % name, bool(size_w), m.where(shrink[0]),
+              "%s changes the key set of self._data (`%s`) without updating self._size: the stale count makes __setitem__ evict "
+              "live keys far below the maximum" % (name, norm(shrink[0])[:50]))
+        ck.ob("R9", "BoundedDict.%s:counters-follow-store" % name, bool(cnt_w), m.where(shrink[0]),
+              "%s changes the key set of self._data without updating self._counter" % name)
+        cb = any(isinstance(c, ast.Call) and dotted(c.func) == "self._delete_cb" for c in walk_body(fn))
+        ck.ob("R9", "BoundedDict.%s:drops-are-reported" % name, cb, m.where(shrink[0]),
+              "%s drops keys from the store without calling the deletion callback" % name)
 
 
 def _ge1(v):
